@@ -23,9 +23,15 @@ F_CONS2 = T.V2 + "consensus.rs"
 F_STATE = T.V2 + "state.rs"
 F_STATE0 = T.M + "state.rs"
 
+NP = "node/components/network/src/proto/"
 PROTO_FILES = [("zksync.std", "std", [P + "proto/std.proto"]),
                ("zksync.roles.validator", "", [PV + "keys.proto", PV + "genesis.proto", PV + "v2.proto", PV + "discovery.proto",
-                                               PV + "consensus.proto"])]
+                                               PV + "consensus.proto"]),
+               ("zksync.roles.node", "node", [R + "proto/node.proto"]),
+               ("zksync.network.gossip", "gossip", [NP + "gossip.proto"]),
+               ("zksync.network.consensus", "consensus", [NP + "consensus.proto"]),
+               ("zksync.network.preface", "preface", [NP + "preface.proto"]),
+               ("zksync.network.ping", "ping", [NP + "ping.proto"])]
 
 PRELUDE = r"""
 // ---------------- prelude: the ProtoFmt trait with the round-trip contract of C09 (conversion layer) ----------------
@@ -42,7 +48,7 @@ pub trait ProtoFmt: Sized {
 }
 // anyhow::Context (texts dropped by R-errmsg) -- A1
 pub trait VerifContext<T> { fn context(self, c: ()) -> Result<T, AnyhowError>; }
-impl<T> VerifContext<T> for Result<T, AnyhowError> {
+impl<T, E> VerifContext<T> for Result<T, E> {
     #[verifier::external_body] fn context(self, c: ()) -> (r: Result<T, AnyhowError>)
         ensures r.is_ok() == self.is_ok(), self.is_ok() ==> r == Result::<T, AnyhowError>::Ok(self->Ok_0) { unimplemented!() }
 }
@@ -51,16 +57,6 @@ impl<T> VerifContextOpt<T> for Option<T> {
     #[verifier::external_body] fn context(self, c: ()) -> (r: Result<T, AnyhowError>)
         ensures r.is_ok() == self.is_some(), self.is_some() ==> r == Result::<T, AnyhowError>::Ok(self->Some_0) { unimplemented!() }
 }
-// A1: Option<Result<T, E>>::transpose
-pub assume_specification<T, E>[ Option::<Result<T, E>>::transpose ](o: Option<Result<T, E>>) -> (r: Result<Option<T>, E>)
-    ensures o matches None ==> r == Ok::<Option<T>, E>(None),
-            o matches Some(Ok(v)) ==> r == Ok::<Option<T>, E>(Some(v)),
-            o matches Some(Err(e)) ==> r == Err::<Option<T>, E>(e);
-// A1: Option::filter keeps the value iff the predicate holds for it
-pub assume_specification<T, P: FnOnce(&T) -> bool>[ Option::<T>::filter ](o: Option<T>, p: P) -> (r: Option<T>)
-    requires o matches Some(v) ==> p.requires((&v,)),
-    ensures o matches None ==> r == None::<T>,
-            o matches Some(v) ==> (p.ensures((&v,), true) ==> r == Some(v)) && (p.ensures((&v,), false) ==> r == None::<T>) && (r == Some(v) || r == None::<T>);
 // A1: Rust's `==` on Vec compares contents (capacity is not observable)
 pub broadcast axiom fn vec_u8_ext(a: Vec<u8>, b: Vec<u8>) requires #[trigger] a@ == #[trigger] b@ ensures a == b;
 pub uninterp spec fn vec_of(s: Seq<u8>) -> Vec<u8>;
@@ -233,8 +229,195 @@ pub fn roundtrip<T: ProtoFmt>(x: &T) -> (r: Result<T, AnyhowError>)
 """
 
 
+NODE_PRELUDE = r"""
+// ---------------- roles::node (ed25519 keys are assumed leaves, A3) ----------------
+#[verifier::external_body] pub struct PublicKey { _p: u8 }      // node::PublicKey (ed25519)
+#[verifier::external_body] pub struct Signature { _p: u8 }      // node::Signature (ed25519)
+impl ProtoFmt for PublicKey {
+    type Proto = proto::node::PublicKey;
+    uninterp spec fn enc(&self) -> proto::node::PublicKey;
+    #[verifier::external_body] fn read(r: &Self::Proto) -> (res: Result<Self, AnyhowError>) { unimplemented!() }
+    #[verifier::external_body] fn build(&self) -> (p: Self::Proto) { unimplemented!() }
+}
+impl ProtoFmt for Signature {
+    type Proto = proto::node::Signature;
+    uninterp spec fn enc(&self) -> proto::node::Signature;
+    #[verifier::external_body] fn read(r: &Self::Proto) -> (res: Result<Self, AnyhowError>) { unimplemented!() }
+    #[verifier::external_body] fn build(&self) -> (p: Self::Proto) { unimplemented!() }
+}
+pub trait Variant: Sized {
+    spec fn ins(self) -> Msg;
+    fn insert(self) -> (m: Msg) ensures m == self.ins();
+    fn extract(msg: Msg) -> (r: Result<Self, BadVariantError>)
+        ensures forall|v: Self| #[trigger] v.ins() == msg ==> r == Ok::<Self, BadVariantError>(v);
+}
+"""
+
+NET_PRELUDE = r"""
+// semver::Version <-> its string form (A2: Version::to_string / str::parse round-trip)
+#[verifier::external_body] pub struct Version { _p: u8 }
+#[verifier::external_body] pub struct SemverError { _p: u8 }
+pub uninterp spec fn ver_str(v: Version) -> String;
+#[verifier::external_body] pub fn verif_parse_version(x: &String) -> (r: Result<Version, SemverError>)      // R-std: x.parse()
+    ensures forall|v: Version| #[trigger] ver_str(v) == *x ==> r == Ok::<Version, SemverError>(v) { unimplemented!() }
+#[verifier::external_body] pub fn verif_version_to_string(v: &Version) -> (r: String) ensures r == ver_str(*v) { unimplemented!() }   // R-std: v.to_string()
+// A1: <[u8; 32]>::try_from(&v[..]) succeeds iff the length is 32 and then has the same bytes; <Vec<u8>>::from([u8; 32])
+#[verifier::external_body] pub fn verif_try_into_32(v: &Vec<u8>) -> (r: Result<[u8; 32], AnyhowError>)
+    ensures v@.len() == 32 ==> (r matches Ok(a) && a@ == v@), v@.len() != 32 ==> r.is_err() { unimplemented!() }
+#[verifier::external_body] pub fn verif_arr_to_vec(a: &[u8; 32]) -> (r: Vec<u8>) ensures r@ == a@ { unimplemented!() }
+pub broadcast axiom fn arr32_ext(a: [u8; 32], b: [u8; 32]) requires #[trigger] a@ == #[trigger] b@ ensures a == b;   // A1: array equality is content equality
+// A1: prost's Default for a message is "every field absent"
+impl proto::gossip::GetBlockResponse {
+    #[verifier::external_body] pub fn default() -> (r: Self) ensures r.pre_genesis.is_none(), r.block_v2.is_none() { unimplemented!() }
+}
+// Arc<T> (A1)
+pub open spec fn arc_val<T>(a: Arc<T>) -> T { *a }
+"""
+
+
+def mod_open(U, name):
+    U.raw("pub mod %s {\n    use super::*;" % name, label="mod %s {" % name)
+
+
+def mod_close(U, name):
+    U.raw("}   // mod %s" % name, label="} mod %s" % name)
+
+
+def add_net(U):
+    N = "node/components/network/src/"
+    F_NM = R + "node/messages.rs"
+    # ---- roles::node
+    mod_open(U, "node")
+    U.raw(NODE_PRELUDE, label="prelude node")
+    U.item(F_NM, "enum Msg")
+    PN = [("proto::", "proto::node::", None)]
+    U.trait_impl(F_NM, "impl Variant<Msg> for SessionId", header_subs=[("Variant<Msg>", "Variant", None)],
+                 extra="    open spec fn ins(self) -> Msg { Msg::SessionId(self) }",
+                 fns=dict(insert=dict(ret="m"), extract=dict(ret="r")))
+    U.trait_impl(F_NM, "impl ProtoFmt for Msg", header_subs=HS + PN,
+                 extra="    open spec fn enc(&self) -> proto::node::Msg {\n        proto::node::Msg { t: Some(match self { Msg::SessionId(x) => proto::node::msg::T::SessionId(x.0) }) }\n    }",
+                 fns=dict(read=dict(header_subs=HS, rules_=RULES, ret="res", proof_at_start=BU, subs=PN),
+                          build=dict(header_subs=HS, rules_=RULES, ret="p", proof_at_start=BU, subs=PN + [("Self::Proto {", "proto::node::Msg {", None)])))
+    U.item(F_NM, "struct Signed", subs=[("<V: Variant<Msg>>", "<V>"), ("node::PublicKey", "PublicKey"), ("node::Signature", "Signature")])
+    U.trait_impl(F_NM, "impl<V: Variant<Msg> + Clone> ProtoFmt for Signed<V>", header_subs=[("Variant<Msg>", "Variant", None)] + HS + PN,
+                 extra="    open spec fn enc(&self) -> proto::node::Signed {\n        proto::node::Signed { msg: Some(self.msg.ins().enc()), key: Some(self.key.enc()), sig: Some(self.sig.enc()) }\n    }",
+                 fns=dict(read=dict(header_subs=HS, rules_=RULES, ret="res", proof_at_start=BU,
+                                    subs=[("V::extract(read_required::<Msg>(&r.msg).context(())?)?",
+                                           "V::extract(read_required::<Msg>(&r.msg).context(())?).map_err(|verif_e: BadVariantError| -> (verif_r: AnyhowError) { anyhow_error() })?   /* R-try */")]),
+                          build=dict(header_subs=HS, rules_=RULES, ret="p", proof_at_start=BU,
+                                     subs=[("Self::Proto {", "proto::node::Signed {", None),
+                                           ("self.msg.clone()", "verif_clone(&self.msg)   /* R-std: A1 derive(Clone) */")])))
+    mod_close(U, "node")
+    U.raw(NET_PRELUDE, label="prelude network messages")
+
+    def net_impl(file, ty, pmod, pty, enc, read=None, build=None, extra_subs=None):
+        PM = [("proto::", "proto::%s::" % pmod, None)] + (extra_subs or [])
+        rd = dict(header_subs=HS, rules_=RULES, ret="res", proof_at_start=BU)
+        rd.update(read or {})
+        rd["subs"] = PM + (rd.get("subs") or [])
+        bd = dict(header_subs=HS, rules_=RULES, ret="p", proof_at_start=BU)
+        bd.update(build or {})
+        bd["subs"] = PM + [("Self::Proto {", "proto::%s::%s {" % (pmod, pty), None)] + (bd.get("subs") or [])
+        U.trait_impl(file, "impl ProtoFmt for " + ty, header_subs=HS + PM,
+                     extra="    open spec fn enc(&self) -> proto::%s::%s {\n        %s\n    }" % (pmod, pty, enc.strip()),
+                     fns=dict(read=rd, build=bd))
+
+    # ---- preface
+    mod_open(U, "preface")
+    U.item(N + "preface.rs", "enum Encryption")
+    U.item(N + "preface.rs", "enum Endpoint")
+    net_impl(N + "preface.rs", "Encryption", "preface", "Encryption",
+             "proto::preface::Encryption { t: Some(match self { Encryption::NoiseNN => proto::preface::encryption::T::NoiseNn(proto::preface::encryption::NoiseNn {}) }) }")
+    net_impl(N + "preface.rs", "Endpoint", "preface", "Endpoint", """proto::preface::Endpoint { t: Some(match self {
+            Endpoint::ConsensusNet => proto::preface::endpoint::T::ConsensusNet(proto::preface::endpoint::ConsensusNet {}),
+            Endpoint::GossipNet => proto::preface::endpoint::T::GossipNet(proto::preface::endpoint::GossipNet {}),
+        }) }""")
+    mod_close(U, "preface")
+    # ---- consensus handshake + rpc
+    VS = [("validator::Signed", "Signed", None), ("validator::GenesisHash", "GenesisHash", None), ("node::SessionId", "SessionId", None),
+          ("validator::ConsensusMsg", "ConsensusMsg", None), ("validator::BlockNumber", "BlockNumber", None), ("validator::Block", "Block", None),
+          ("validator::NetAddress", "NetAddress", None)]
+    mod_open(U, "consensus_hs")
+    U.item(N + "consensus/handshake/mod.rs", "struct Handshake", subs=VS[:3])
+    net_impl(N + "consensus/handshake/mod.rs", "Handshake", "consensus", "Handshake",
+             "proto::consensus::Handshake { session_id: Some(self.session_id.enc()), genesis: Some(self.genesis.enc()) }")
+    mod_close(U, "consensus_hs")
+    mod_open(U, "rpc_consensus")
+    U.item(N + "rpc/consensus.rs", "struct Req", subs=VS)
+    U.item(N + "rpc/consensus.rs", "struct Resp")
+    net_impl(N + "rpc/consensus.rs", "Req", "consensus", "ConsensusReq", "proto::consensus::ConsensusReq { msg: Some(self.0.enc()) }",
+             read=dict(subs=[("read_required(&r.msg).map(Self)",
+                              "read_required(&r.msg).map(|verif_x: Signed<ConsensusMsg>| -> (verif_o: Req) ensures verif_o == Req(verif_x) { Self(verif_x) })   /* R-ctorfn (eta) */")]))
+    net_impl(N + "rpc/consensus.rs", "Resp", "consensus", "ConsensusResp", "proto::consensus::ConsensusResp {}")
+    mod_close(U, "rpc_consensus")
+    # ---- get_block
+    mod_open(U, "rpc_get_block")
+    U.item(N + "rpc/get_block.rs", "struct Req", subs=VS)
+    U.item(N + "rpc/get_block.rs", "struct Resp", subs=VS)
+    net_impl(N + "rpc/get_block.rs", "Req", "gossip", "GetBlockRequest", "proto::gossip::GetBlockRequest { number: Some(self.0.0) }", extra_subs=VS)
+    net_impl(N + "rpc/get_block.rs", "Resp", "gossip", "GetBlockResponse", """proto::gossip::GetBlockResponse {
+            pre_genesis: match self.0 { Some(Block::PreGenesis(b)) => Some(b.enc()), _ => None },
+            block_v2: match self.0 { Some(Block::FinalV2(b)) => Some(b.enc()), _ => None } }""",
+             extra_subs=[("use validator::Block as B;", "use Block as B;", None)],
+             read=dict(subs=[("r\n            .block_v2\n            .as_ref()\n            .map(ProtoFmt::read)", "r.block_v2.as_ref().map(|verif_x: &proto::FinalBlockV2| -> (verif_o: Result<FinalBlock, AnyhowError>) ensures forall|x: FinalBlock| #[trigger] x.enc() == *verif_x ==> verif_o == Ok::<FinalBlock, AnyhowError>(x) { ProtoFmt::read(verif_x) })   /* R-ctorfn (eta) + W-closure */"),
+                             ("r\n            .pre_genesis\n            .as_ref()\n            .map(ProtoFmt::read)", "r.pre_genesis.as_ref().map(|verif_x: &proto::PreGenesisBlock| -> (verif_o: Result<PreGenesisBlock, AnyhowError>) ensures forall|x: PreGenesisBlock| #[trigger] x.enc() == *verif_x ==> verif_o == Ok::<PreGenesisBlock, AnyhowError>(x) { ProtoFmt::read(verif_x) })   /* R-ctorfn (eta) + W-closure */")],
+                       closures=[dict(prefix="|verif_e| B::FinalV2", ty="FinalBlock", ret="verif_o: Block", spec="ensures verif_o == Block::FinalV2({p})"),
+                                 dict(prefix="|verif_e| B::PreGenesis", ty="PreGenesisBlock", ret="verif_o: Block", spec="ensures verif_o == Block::PreGenesis({p})")]),
+             build=dict(subs=[("Self::Proto::default()", "proto::gossip::GetBlockResponse::default()   /* R-path */")]))
+    mod_close(U, "rpc_get_block")
+    # ---- ping
+    mod_open(U, "rpc_ping")
+    U.item(N + "rpc/ping.rs", "struct Req")
+    U.item(N + "rpc/ping.rs", "struct Resp")
+    for ty, pty in (("Req", "PingReq"), ("Resp", "PingResp")):
+        net_impl(N + "rpc/ping.rs", ty, "ping", pty, "proto::ping::%s { data: Some(vec_of(self.0@)) }" % pty,
+                 read=dict(subs=[("required(&r.data)?[..].try_into()?", "verif_try_into_32(required(&r.data)?)?   /* R-std */")],
+                           proof_at_start=BU + " broadcast use arr32_ext;"),
+                 build=dict(subs=[("self.0.into()", "verif_arr_to_vec(&self.0)   /* R-std */")]))
+    mod_close(U, "rpc_ping")
+    U.assume("A3: ProtoFmt of node::PublicKey / node::Signature (ed25519) satisfies the round-trip contract; A2: semver parse/to_string round-trip")
+def add_genesis(U):
+    """C10: decoding a Genesis never reaches the `unreachable!()` of GenesisRaw::build (Genesis::read re-encodes what it decoded to
+    compute the hash). Not under the round-trip contract: the schedule inside is validated and sorted by Schedule::new."""
+    U.raw("""
+impl ProtoFmt for Schedule {               // schedule.rs: decodes through Schedule::new (validation + sorting); NOT claimed, assumed leaf
+    type Proto = proto::ValidatorSchedule;
+    uninterp spec fn enc(&self) -> proto::ValidatorSchedule;
+    #[verifier::external_body] fn read(r: &Self::Proto) -> (res: Result<Self, AnyhowError>) { unimplemented!() }
+    #[verifier::external_body] fn build(&self) -> (p: Self::Proto) { unimplemented!() }
+}
+""", label="leaf Schedule (assumed)", props=["C10"])
+    for t in ("ProtocolVersion", "ForkNumber", "ChainId"):
+        U.item(T.F_GEN, "struct " + t, props=["C10"])
+    U.item(T.F_GEN, "struct GenesisRaw", props=["C10"])
+    G = "impl ProtoFmt for GenesisRaw"
+    U.fn(T.F_GEN, G + " :: fn read", wrap="impl GenesisRaw", ret="res", props=["C10"], rules_=RULES,
+         header_subs=[("anyhow::Result<Self>", "Result<Self, AnyhowError>"), ("Self::Proto", "proto::Genesis")],
+         spec="""
+    // what is decoded can be re-encoded: the only supported protocol version is the one build() handles
+    ensures res matches Ok(g) ==> g.protocol_version.0 == 2,
+""")
+    U.fn(T.F_GEN, G + " :: fn build", wrap="impl GenesisRaw", ret="p", props=["C10"], rules_=RULES,
+         header_subs=[("Self::Proto", "proto::Genesis")],
+         subs=[("Self::Proto {", "proto::Genesis {   /* R-path */"),
+               ("self.validators_schedule.as_ref().map(|x| x.build())",
+                "self.validators_schedule.as_ref().map(|x: &Schedule| -> (verif_o: proto::ValidatorSchedule) ensures verif_o == x.enc() { x.build() })   /* W-closure */")],
+         spec="""
+    // `unreachable!()` is a proof obligation: discharged by this precondition, which read() establishes for every decoded value
+    requires self.protocol_version.0 == 2,
+""")
+    U.raw("""
+// Genesis::read is `Ok(GenesisRaw::read(r)?.with_hash())`, with_hash() hashes canonical(&self) = encode(self.build()): the composition
+pub fn genesis_read_then_build(r: &proto::Genesis) -> (res: Result<proto::Genesis, AnyhowError>)
+{
+    let g = GenesisRaw::read(r)?;
+    Ok(g.build())
+}
+""", label="Genesis::read = read then build", props=["C10"])
+
+
 def build(repo):
-    U = Unit("conv", ["C09"], desc="ProtoFmt conversions round-trip", uses=T.USES)
+    U = Unit("conv", ["C09"], desc="ProtoFmt conversions round-trip", uses=T.USES + "\nuse std::sync::Arc;")
     U.repo = repo
     T.add_base_types(U)
     # message types (definitions only)
@@ -483,6 +666,8 @@ def build(repo):
                                            "V::extract(read_required::<Msg>(&r.msg).context(())?).map_err(|verif_e: BadVariantError| -> (verif_r: AnyhowError) { anyhow_error() })?   /* R-try: From<BadVariantError> for anyhow::Error */")]),
                           build=dict(header_subs=HS, rules_=RULES, ret="p", proof_at_start=BU, subs=[("Self::Proto {", "proto::Signed {", None),
                                       ("self.msg.clone()", "verif_clone(&self.msg)   /* R-std: A1, the message types derive Clone */")])))
+    add_genesis(U)
+    add_net(U)
     U.raw(ROUNDTRIP, label="roundtrip (property)", canary=False)
     U.assume("R-proto: the prost message types are generated from the .proto files of /repo with prost's documented mapping "
              "(optional -> Option, repeated -> Vec, oneof -> Option<enum>, heck case conversion); prost's wire codec is outside the claim")
